@@ -679,10 +679,26 @@ def builtin(ev, name, args, kwargs, lineno, env):
         if is_z3(x):
             return B(x)
         return bool(x)
+    if name == "map":
+        # elementwise map idiom: map(f, s1, s2, ...) over symbolic sequences of one length is the sequence whose k-th
+        # element is f(s1[k], s2[k], ...) (python zip semantics; the lengths must agree for nothing to be dropped)
+        f, seqs = args[0], list(args[1:])
+        sym = [q for q in seqs if is_array(q) or hasattr(q, "elem")]
+        if sym and all(is_array(q) or hasattr(q, "elem") for q in seqs):
+            n0 = sym[0].n
+            for q in sym[1:]:
+                ev.same_len(n0, q.n, lineno)
+            at_ = lambda q, j: q.elem(j) if hasattr(q, "elem") else q.f(j)
+            out = Arr(n0, lambda j: ev.call(f, [at_(q, j) for q in seqs], {}, lineno, env), "f")
+            out.is_map = True
+            return out
+        return [ev.call(f, list(xs), {}, lineno, env) for xs in zip(*[ev.iterate(q) for q in seqs])]
     if name in ("list", "tuple"):
         if not args:
             return [] if name == "list" else ()
         a = args[0]
+        if getattr(a, "is_map", False):
+            return a
         if isinstance(a, (list, tuple)):
             return list(a) if name == "list" else tuple(a)
         if isinstance(a, dict):
@@ -854,7 +870,7 @@ def _isinstance(x, t):
             return True
         if nm in ("list",) and isinstance(x, list):
             return True
-        if nm in ("tuple",) and isinstance(x, tuple):
+        if nm in ("tuple",) and (isinstance(x, tuple) or getattr(x, "is_tuple", False)):
             return True
     return False
 
